@@ -2,7 +2,7 @@
    Function level (this block): reverse simulation = documented closed form within its rounding bound.
    System level (forward simulation = execution, router folds) is stated over the world model in the
    second block, added with World/. *)
-From HT Require Import Base.Prelude Num.Arith Amm.Formulas Proofs.ReverseProofs.
+From HT Require Import Base.Prelude Num.Arith Amm.Formulas Amm.Guards World.World Proofs.ReverseProofs Proofs.RouterProofs.
 
 (* compute_offer_amount x y k c = Ok (o, _, m):  o = floor(x*y/(y - t)) - x  where t is the ask amount
    grossed up by 1/(1-c), with  k/(1-c) - k/10^18 - 1 < t <= k/(1-c)  (cross-multiplied) *)
@@ -35,6 +35,39 @@ Example C12_nonvacuous :
   compute_offer_amount 30000000000 20000000000 949523810 3000000000000000 = Ok (1499999999, 47619047, 2857142).
 Proof. vm_compute. reflexivity. Qed.
 
+(* ---- system level ---- *)
+(* forward simulation in the state before the offer arrives = what the immediately following swap computes *)
+Theorem C12_forward : forall w w1 p ps funds sender offer amount bp ms to w' out r0 r1,
+  w_pairs w p = Some ps -> asset_eqb (p_a0 ps) (p_a1 ps) = false ->
+  asset_balance w (p_a0 ps) p = Ok r0 -> asset_balance w (p_a1 ps) p = Ok r1 ->
+  asset_balance w1 (p_a0 ps) p = Ok (r0 + (if asset_eqb offer (p_a0 ps) then amount else 0)) ->
+  asset_balance w1 (p_a1 ps) p = Ok (r1 + (if asset_eqb offer (p_a1 ps) then amount else 0)) ->
+  pair_swap w1 p ps funds sender offer amount bp ms to = Ok (w', out) ->
+  q_simulation w p offer amount = Ok out.
+Proof. exact swap_matches_simulation. Qed.
+
+(* the router's simulations are the hop-by-hop composition of the pair queries through the factory lookup *)
+Theorem C12_router_forward_step : forall w o a amount,
+  q_router_simulate w amount [(o, a)] =
+  match reg_find (w_reg w) o a with
+  | None => Err EStd
+  | Some r => let* out := q_simulation w (f_pair r) o amount in let '(ret, _, _) := out in Ok ret
+  end.
+Proof. exact q_router_simulate_step. Qed.
+Theorem C12_router_forward_compose : forall w ops1 ops2 amount,
+  q_router_simulate w amount (ops1 ++ ops2) = (let* x := q_router_simulate w amount ops1 in q_router_simulate w x ops2).
+Proof. exact q_router_simulate_app. Qed.
+Theorem C12_router_reverse_compose : forall w l1 l2 amount,
+  is_ok (q_router_reverse w amount (l1 ++ l2)) =
+  is_ok (let* x := q_router_reverse w amount l1 in q_router_reverse w x l2) /\
+  (forall v, q_router_reverse w amount (l1 ++ l2) = Ok v <->
+             (let* x := q_router_reverse w amount l1 in q_router_reverse w x l2) = Ok v).
+Proof. exact q_router_reverse_app. Qed.
+
+Print Assumptions C12_forward.
+Print Assumptions C12_router_forward_step.
+Print Assumptions C12_router_forward_compose.
+Print Assumptions C12_router_reverse_compose.
 Print Assumptions C12_reverse.
 Print Assumptions C12_reverse_never_above.
 Print Assumptions C12_reverse_closed_form.
